@@ -144,6 +144,11 @@ class Run:
         self.cov["obligation_names"] = names
         if rc == 0:
             all_ok = self.audit(modules, names) and all_ok
+            if self.tier == "thorough" and "leanchecker" not in self.cov:
+                # independent re-check of the compiled modules (and everything they import) by the toolchain's
+                # stand-alone kernel front end
+                with Lock("lake"):
+                    all_ok = self.leanchecker(modules) and all_ok
         return all_ok
 
     def audit(self, modules, names):
